@@ -568,7 +568,16 @@ def run(ctx) -> list[Inst]:
         for F in node_empty_relations:
             props = PROPS + ('C09',) + (('C11',) if F == 'compromised_by' else ())
             construct = f'(c) AttackGraphNode.{F} re-linked by the graph copy'
-            if F not in relinked:
+            elsewhere = [b for b in own_nodes(f.node) if isinstance(b, ast.Assign) and len(b.targets) == 1
+                         and isinstance(b.targets[0], ast.Attribute) and b.targets[0].attr == F
+                         and any(isinstance(x, ast.Attribute) and x.attr == F for x in ast.walk(b.value))
+                         and 'memo' in stmt_text(b.value, 400)]
+            if F not in relinked and elsewhere:
+                insts.append(Inst(RULE, f.short, construct, 'unproven',
+                                  msg=(f"'{stmt_text(elsewhere[0], 70)}' rebuilds {F} through the memo, but not in a loop over "
+                                       f"the original nodes of the form this rule reads (worklist / alias of the copy)"),
+                                  file=rel, line=elsewhere[0].lineno, props=props))
+            elif F not in relinked:
                 insts.append(Inst(
                     RULE, f.short, construct, 'violation',
                     msg=(f'the node copy leaves {F} empty and AttackGraph.__deepcopy__ never re-establishes it '
